@@ -1,5 +1,6 @@
 import Dashu.Proofs.Serde.Text
 import Dashu.Props.C01
+import Dashu.Proofs.Serde.WordSize
 import Dashu.Proofs.NT.Log2Table
 import Dashu.Model.Serde.Log2Cfg
 /-
@@ -66,6 +67,37 @@ theorem word_size_independent_i_ring (W₁ W₂ : Nat) (h₁ : 8 ≤ W₁) (h₂
   rw [(C01.i_mul_exact W₁ (by omega) _ _ ox₁.2 oy₁.2).1, (C01.i_mul_exact W₂ (by omega) _ _ ox₂.2 oy₂.2).1,
     ox₁.1, oy₁.1, ox₂.1, oy₂.1]
 
+/-- UBig division: same quotient and remainder (= `x / y`, `x % y`), or the same `DivideByZero` panic (C02) -/
+theorem word_size_independent_u_div_rem (W₁ W₂ : Nat) (h₁ : 8 ≤ W₁) (h₂ : 8 ≤ W₂) (x y : Nat) :
+    (y = 0 → Div.divRemRepr W₁ (ofNat W₁ x) (ofNat W₁ y) = .error .divideByZero ∧
+             Div.divRemRepr W₂ (ofNat W₂ x) (ofNat W₂ y) = .error .divideByZero) ∧
+    (y ≠ 0 → ∃ q₁ r₁ q₂ r₂, Div.divRemRepr W₁ (ofNat W₁ x) (ofNat W₁ y) = .ok (q₁, r₁) ∧
+        Div.divRemRepr W₂ (ofNat W₂ x) (ofNat W₂ y) = .ok (q₂, r₂) ∧
+        q₁.value W₁ = q₂.value W₂ ∧ r₁.value W₁ = r₂.value W₂ ∧ q₁.value W₁ = x / y ∧ r₁.value W₁ = x % y) :=
+  WordSize.word_size_independent_u_div_rem W₁ W₂ h₁ h₂ x y
+
+/-- UBig `&`, `|`, `^`, `<<`, `>>` (C09) -/
+theorem word_size_independent_u_bits (W₁ W₂ : Nat) (h₁ : 8 ≤ W₁) (h₂ : 8 ≤ W₂) (x y n : Nat) (byRef₁ byRef₂ : Bool) :
+    ((ofNat W₁ x).bitand W₁ (ofNat W₁ y)).value W₁ = ((ofNat W₂ x).bitand W₂ (ofNat W₂ y)).value W₂ ∧
+    ((ofNat W₁ x).bitor W₁ (ofNat W₁ y)).value W₁ = ((ofNat W₂ x).bitor W₂ (ofNat W₂ y)).value W₂ ∧
+    ((ofNat W₁ x).bitxor W₁ (ofNat W₁ y)).value W₁ = ((ofNat W₂ x).bitxor W₂ (ofNat W₂ y)).value W₂ ∧
+    ((ofNat W₁ x).shl W₁ n).value W₁ = ((ofNat W₂ x).shl W₂ n).value W₂ ∧
+    ((ofNat W₁ x).shr W₁ n byRef₁).value W₁ = ((ofNat W₂ x).shr W₂ n byRef₂).value W₂ :=
+  WordSize.word_size_independent_u_bits W₁ W₂ h₁ h₂ x y n byRef₁ byRef₂
+
+/-- text and bytes (C07): printing under every format trait, `from_str_radix`, `from_str_with_radix_default`,
+    `to_le_bytes`, `from_le_bytes` are the same functions in any two word sizes (multiples of 8, ≥ 8) -/
+theorem word_size_independent_text (W₁ W₂ : Nat) (h₁ : 8 ≤ W₁) (h₂ : 8 ≤ W₂) (d₁ : 8 ∣ W₁) (d₂ : 8 ∣ W₂) :
+    (∀ (t : Text.FmtTrait) (f : Text.FmtSpec) (z : Int), Text.validRadix t.radix = true →
+      Text.fmtModel W₁ t f z = Text.fmtModel W₂ t f z) ∧
+    (∀ (signed : Bool) (s : List Nat) (r : Nat), Text.parseRadix W₁ signed s r = Text.parseRadix W₂ signed s r) ∧
+    (∀ (signed : Bool) (s : List Nat) (dflt : Nat), Text.parseDefault W₁ signed s dflt = Text.parseDefault W₂ signed s dflt) ∧
+    (∀ n : Nat, Text.toLeBytes W₁ n = Text.toLeBytes W₂ n) ∧
+    (∀ bytes : List Nat, Text.fromLeBytes W₁ bytes = Text.fromLeBytes W₂ bytes) :=
+  WordSize.word_size_independent_text W₁ W₂ h₁ h₂ d₁ d₂
+
+example : (8 : Nat) ≤ 64 ∧ (8 : Nat) ≤ 32 ∧ 8 ∣ 64 ∧ 8 ∣ 32 := by decide
+
 /-- the two word sizes the builds use -/
 example (x y : Int) :
     (ibigMul 64 (.ofInt 64 x) (.ofInt 64 y)).value 64 = (ibigMul 32 (.ofInt 32 x) (.ofInt 32 y)).value 32 :=
@@ -78,6 +110,13 @@ example (x y : Int) :
 theorem le_bytes_round_trip (n : Nat) :
     ofLeBytes (leBytes n) = n ∧ isBytes (leBytes n) ∧ (leBytes n).getLast? ≠ some 0 :=
   ⟨ofLeBytes_leBytes n, leBytes_isBytes n, leBytes_getLast_ne_zero n⟩
+
+/-- the byte payload of `impl Serialize for UBig` **is** what `UBig::to_le_bytes` computes word by word
+    (C07's word-level model) in every word size that is a multiple of 8, and `visit_bytes` is that word
+    size's `from_le_bytes`: the wire format is identical across word sizes -/
+theorem serde_bytes_word_size_independent (W : Nat) (h8 : 8 ∣ W) (hW : 8 ≤ W) (n : Nat) (bs : Bytes) :
+    Text.toLeBytes W n = leBytes n ∧ Text.fromLeBytes W bs = ofLeBytes bs :=
+  serde_bytes_are_the_word_level_bytes W h8 hW n bs
 
 /-- decoding accepts most-significant zero bytes and still yields the canonical number -/
 theorem le_bytes_leading_zeros (bs : Bytes) : ofLeBytes (bs ++ [0]) = ofLeBytes bs := ofLeBytes_append_zero bs
@@ -112,6 +151,11 @@ theorem rbig_binary_round_trip (q : QVal) (rest : Bytes) (hq : QReduced q)
 theorem relaxed_binary_round_trip (q : QVal) (rest : Bytes) (hq : QRelaxed q)
     (h1 : (ibigPayload q.num).length < 2 ^ 64) (h2 : (leBytes q.den).length < 2 ^ 64) :
     decX (encQ q ++ rest) = some (q, rest) := decX_encQ q rest hq h1 h2
+
+/-- a non-reduced pair on the wire (6/9: payloads `06 00` and `09`) decodes to the reduced 2/3 as `RBig`;
+    a zero denominator is an error -/
+example : decQ [2, 6, 0, 1, 9] = some (⟨2, 3⟩, []) ∧ decQ [2, 6, 0, 0] = none ∧ QReduced ⟨2, 3⟩ := by
+  refine ⟨by decide, by decide, by decide, by decide⟩
 
 example : QRelaxed ⟨-6, 9⟩ ∧ ¬ QReduced ⟨-6, 9⟩ := by
   constructor
@@ -180,6 +224,21 @@ theorem rbig_text_round_trip (q : QVal) (hq : QReduced q) : unjsonQ (jsonQ q) = 
 
 theorem relaxed_text_round_trip (q : QVal) (hq : QRelaxed q) : unjsonX (jsonQ q) = some q := unjsonX_jsonQ q hq
 
+/-- Repr<B> (human-readable medium): `Display` → JSON string → `from_str_native` is the identity on every
+    finite canonical representation, every base 2..36 (on top of C08's `display_parse_round_trip`;
+    `Text.fmtRound` / `Text.fromStrNativeRaw` are the functions the driver runs) -/
+theorem repr_text_round_trip (B : Nat) (hB : Text.validRadix B = true) (v : FVal) (hc : FCanon B v)
+    (hfin : v.signif = 0 → v.exp = 0) : unjsonR B (jsonR B v) = some v := unjsonR_jsonR B hB v hc hfin
+
+/-- FBig (human-readable medium): the representation comes back; the precision read back is the number
+    of digits written (the text carries no precision — `TODO(next)` in float/src/third_party/serde.rs) -/
+theorem fbig_text_round_trip (B : Nat) (hB : Text.validRadix B = true) (v : FVal) (hc : FCanon B v)
+    (hfin : v.signif = 0 → v.exp = 0) : ∃ nd, unjsonF B (jsonR B v) = some ⟨v.signif, v.exp, nd⟩ :=
+  unjsonF_jsonR B hB v hc hfin
+
+example : Text.validRadix 10 = true ∧ FCanon 10 ⟨-1234, -2⟩ ∧ ((-1234 : Int) = 0 → (-2 : Int) = 0) := by
+  refine ⟨by decide, ⟨by decide, by decide, by decide⟩, by decide⟩
+
 /-- arbitrary text → RBig / Relaxed / Repr: canonical or an error -/
 theorem rbig_text_decode_canonical (s : Bytes) (q : QVal) (h : unjsonQ s = some q) : QReduced q :=
   unjsonQ_canonical s q h
@@ -191,11 +250,8 @@ theorem repr_text_decode_canonical (B : Nat) (hB : 2 ≤ B) (s : Bytes) (v : FVa
     FCanon B v := unjsonR_canonical B hB s v h
 
 /-
-  Not proved (explored by the correspondence only):
-    theorem repr_text_round_trip_full (B v) (hv : FCanon B v) (hfin : v.signif ≠ 0 ∨ v.exp = 0) :
-        unjsonR B (jsonR B v) = some v
-  Reason: needs the inversion of the positional float layout of `fmt_round` by `from_str_native`
-  (digit counting across the radix point); the generator runs these round trips for bases 2, 7, 10, 16.
+  Infinities: `inf` / `-inf` are printed but not accepted by the parser (error; decided by the
+  correspondence, `sd.rinf json`).
 -/
 
 -- ====================================================================== (2) log2 bounds, no_std build
